@@ -20,6 +20,11 @@ type caseData struct {
 	Target int    `json:"target"` // index of the op under fault
 	// Only: restrict to one fault (replay aid): "kind:k"
 	Only string `json:"only,omitempty"`
+	// LongLimit > 0 selects the long-history family: a fault-free history of LongLimit+5 revisions
+	// (install, upgrades, a few rollbacks) under history limit LongLimit, judged after every op.
+	// It reaches revision numbers with two digits, where the Kubernetes-backed drivers list
+	// records in name order (.v1, .v10, .v11, .v2 ...).
+	LongLimit int `json:"longLimit,omitempty"`
 }
 
 const relName = "rel"
@@ -49,6 +54,11 @@ func genCases(seed int64, tier string) []core.Case {
 	}
 	var out []core.Case
 	rng := rand.New(rand.NewSource(seed*7919 + 1))
+	for _, drv := range []string{"memory", "secrets", "configmaps"} {
+		for _, lim := range []int{2, 3, 10} {
+			out = append(out, core.Case{ID: fmt.Sprintf("long-%s-max%d", drv, lim), Data: core.J(caseData{HSeed: rng.Int63(), Driver: drv, LongLimit: lim})})
+		}
+	}
 	for h := 0; h < nh; h++ {
 		hs := rng.Int63()
 		hl := 3 + rng.Intn(3)
@@ -126,6 +136,9 @@ func run(c core.Case, verbose bool) core.Result {
 	var d caseData
 	core.U(c, &d)
 	var res core.Result
+	if d.LongLimit > 0 {
+		return runLong(d, verbose)
+	}
 	s := mkSetup(d)
 	target := s.ops[d.Target]
 	hist := opsString(s.ops[:d.Target+1])
@@ -307,6 +320,45 @@ func plainCtx(op env.Op, before []env.Rec) string {
 		last = r.Status
 	}
 	return s + " (no fault) on a history whose last revision is " + last
+}
+
+// runLong executes the long-history family (see caseData.LongLimit).
+func runLong(d caseData, verbose bool) core.Result {
+	var res core.Result
+	rng := rand.New(rand.NewSource(d.HSeed))
+	fam := gen.NewFamily(rng, gen.FamilyOpts{Versions: 4, MaxSlots: 3})
+	s := setup{fam: fam}
+	w := env.NewWorld(d.Driver, "ns1")
+	n := d.LongLimit + 5
+	var hist []string
+	for i := 0; i < n; i++ {
+		op := env.Op{Kind: "upgrade", Chart: rng.Intn(4), MaxHistory: d.LongLimit, NoHooks: true}
+		if i == 0 {
+			op = env.Op{Kind: "install", Chart: rng.Intn(4), NoHooks: true}
+		} else if i > 2 && rng.Intn(5) == 0 {
+			op = env.Op{Kind: "rollback", MaxHistory: d.LongLimit, NoHooks: true}
+		}
+		hist = append(hist, op.String())
+		agent := fmt.Sprintf("long%d", i)
+		b, _ := w.Ledger(relName)
+		r := s.exec(w, agent, op)
+		a, bad := w.Ledger(relName)
+		detail := func() string {
+			return fmt.Sprintf("driver %s | long history (limit %d): %s | op %d %s err=%q | ledger before [%s] after [%s]", d.Driver, d.LongLimit, strings.Join(hist, " ; "), i, op, r.ErrString(), env.LedgerString(b), env.LedgerString(a))
+		}
+		judge(&res, w, op, r, b, a, bad, agent, plainCtx(op, b)+" (long history)", true, detail)
+		res.Evals++
+		res.Stat("long_history_ops", 1)
+		if ref.MaxRev(a) >= 10 {
+			res.Stat("long_history_ops_with_two_digit_revisions", 1)
+		}
+		if verbose {
+			fmt.Println(detail())
+		}
+	}
+	a, _ := w.Ledger(relName)
+	res.Key("long|%s|max%d|%s", d.Driver, d.LongLimit, shape(a))
+	return res
 }
 
 func errClass(err error) string {
